@@ -350,9 +350,45 @@ def instW (s : State) (w : Wid) : Nat :=
 
 def sumW (f : Wid → Nat) (l : List Wid) : Nat := (l.map f).sum
 
-def measure (s : State) : Nat :=
-  (if s.hand.isSome then 8 else 0) + sumW (instW s) s.pendingQ + sumW (instW s) s.running +
-    (if s.closed then 0 else 1)
+/-- the instances (of a list) whose key satisfies `φ` -/
+def onKeys (φ : Key → Bool) (l : List Wid) : List Wid := l.filter (fun w => φ w.key)
+
+/-- weight of the event in the watcher's hand, if its key satisfies `φ` -/
+def handW (φ : Key → Bool) (s : State) : Nat :=
+  match s.hand with
+  | some (k, _) => if φ k then 8 else 0
+  | none => 0
+
+/-- the outstanding work of the keys selected by `φ` -/
+def measureOn (φ : Key → Bool) (s : State) : Nat :=
+  handW φ s + sumW (instW s) (onKeys φ s.pendingQ) + sumW (instW s) (onKeys φ s.running)
+
+/-- the outstanding work of the whole system (all keys, plus the pending `scheduler.close()`) -/
+def measure (s : State) : Nat := measureOn (fun _ => true) s + (if s.closed then 0 else 1)
+
+/-- the outstanding work of ONE key: its event in the watcher's hand, its worker instances, its backlog -/
+def kmeasure (s : State) (k : Key) : Nat := measureOn (fun j => j == k) s
+
+/-- the key a label acts on in state `s` (`none`: the watcher-wide `cancelWatcher` / `close`) -/
+def Label.key? (s : State) : Label → Option Key
+  | .arrive k _ | .miss k _ | .eosPut k => some k
+  | .insert => s.hand.map (·.1)
+  | .spawn => s.pendingQ.head?.map (·.key)
+  | .start w | .take w _ | .timeoutTake w _ | .finish w | .fail w | .retire w | .retireCheck w
+  | .retireErase w | .eosExit w | .left w | .kill w => some w.key
+  | .cancelWatcher | .close => none
+
+/-- how many segments of key `k` a run contains -/
+def kSteps (k : Key) : State → List Label → Nat
+  | _, [] => 0
+  | s, l :: ls =>
+    match step s l with
+    | some s' => (if l.key? s = some k then 1 else 0) + kSteps k s' ls
+    | none => 0
+
+/-- no label of the list is an arrival (`arrive` / `miss`) for key `k` -/
+def NoArrivalFor (k : Key) (ls : List Label) : Prop :=
+  ∀ l ∈ ls, ∀ e, l ≠ .arrive k e ∧ l ≠ .miss k e
 
 /-- raw events of an optional backlog ([] when there is no stream entry) -/
 def backlogOf : Option (List Item) → List Ev
